@@ -492,18 +492,10 @@ def run(ctx):
 
 
 def replay(ctx, path):
-    r = json.load(open(path))
+    import replaylib
+    r = replaylib.load("C14", path)
     if "op" not in r:
-        print("replay file names proof obligations that no longer check (no failing input was found):")
-        for b in r.get("no_longer_checks", []):
-            print("  -", b.get("name"))
-        ok, log = gen_all() if build_c(ctx) else (False, "build failed")
-        p_ok = ctx.lean_stage(PROPS, exes=["xzm_c14"]) if ok else False
-        if not p_ok:
-            print("VIOLATION property=C14 replay=%s no-failing-input-found" % path)
-            return 1
-        print("replay passes (all obligations check)")
-        return 0
+        return replaylib.obligations("C14", run, r, path)
     exe = build_c(ctx)
     if exe is None:
         print("build failed")
